@@ -116,7 +116,10 @@ def build_txns(data_atoms, names, rnd, variant):
     end = END_TAGS[variant % len(END_TAGS)]
     extra = harvest_placeholders()
     xph = ' '.join(extra) if extra else 'XPH'         # no further placeholder in this template: the atom is plain text
-    desc = ' '.join(end if a == 'endscript' else xph if a == 'x_ph' else TXT_FORMS[(variant * 7 + len(data_atoms) * 5 + len(names[0]) * 3 + len(names[1])) % len(TXT_FORMS)] if a == 'txt' else ATOM_TEXT[a]
+    uni_ranges = [(0xa1, 0xff), (0x100, 0x17f), (0x370, 0x3ff), (0x400, 0x45f), (0x2000, 0x206f), (0xff10, 0xff5a), (0x300, 0x36f), (0x1e00, 0x1eff),
+                  (0xfb00, 0xfb06), (0x2100, 0x214f), (0x5d0, 0x5ea), (0x4e00, 0x4e20), (0x1f600, 0x1f64f), (0x20, 0x7e)]
+    uni = ''.join(chr(rnd.randint(*rnd.choice(uni_ranges))) for _ in range(rnd.choice([3, 6, 12]))).strip() or ATOM_TEXT['nonascii']
+    desc = ' '.join(end if a == 'endscript' else xph if a == 'x_ph' else (uni if variant % 2 else ATOM_TEXT[a]) if a == 'nonascii' else TXT_FORMS[(variant * 7 + len(data_atoms) * 5 + len(names[0]) * 3 + len(names[1])) % len(TXT_FORMS)] if a == 'txt' else ATOM_TEXT[a]
                     for a in data_atoms) or 'PLAIN'
     n1 = ''.join(NAME_TEXT[a] for a in names[0])
     n2 = ''.join(NAME_TEXT[a] for a in names[1])
